@@ -25,14 +25,17 @@ Theorem C14_algebra_rename : forall (D : Domain) c s t e,
 Proof. exact @algebra_errors_rename. Qed.
 
 (* polyhedral primitives *)
+(* for EVERY context, including variable-free terms such as '0 <= -0.5' that a tactic can leave behind (before repo commit
+   12672f5 an AssertionError escaped from the simplification step there, and this theorem needed a side condition on ctx) *)
 Theorem C14_elimination : forall O order self ctx vs sp e,
-  lp_total O -> (forall num, In num order -> in16 num) -> (ctx = [] \/ all_have_vars ctx = true) ->
+  lp_total O -> (forall num, In num order -> in16 num) ->
   elim_vars_by_refining O self ctx vs sp order = inr e \/ elim_vars_by_relaxing O self ctx vs sp order = inr e ->
   e = ValueErr \/ ((e = Escape "IndexError" \/ e = Escape "fuel") /\ In 4%nat order).
-Proof. exact TacticsFacts.C04_errors_total. Qed.
-Theorem C14_simplify : forall O ts ctx e, wfl ts -> wfl (opt_list ctx) -> poly_simplify O ts ctx = inr e ->
+Proof. exact TacticsFacts.C04_errors_total_any_context. Qed.
+(* (for every list and context, including variable-free terms left behind by a tactic: repaired in repo commit 12672f5) *)
+Theorem C14_simplify : forall O ts ctx e, poly_simplify O ts ctx = inr e ->
   e = ValueErr \/ e = OracleMiss.
-Proof. exact simplify_errors_only_wfl. Qed.
+Proof. exact simplify_errors_only. Qed.
 Theorem C14_refines_total : forall O, lp_spec 0 O -> forall A B, wfl A -> wfl B -> lp_total O ->
   exists b, poly_refines O A B = inl b.
 Proof. exact refines_errors. Qed.
